@@ -157,6 +157,14 @@ func work(w *mon.W) {
 				}
 				st.mu.Unlock()
 			}
+			if strings.HasPrefix(string(ctx.Request.RequestURI()), "/rawmp") {
+				// a multipart body on an engine that does not pre-parse forms: the handler
+				// takes it as the stream it is (an upload proxy, a virus scanner)
+				b, err := io.ReadAll(ctx.RequestBodyStream())
+				st.mu.Lock()
+				st.got, st.gotErr = b, err
+				st.mu.Unlock()
+			}
 			if strings.HasPrefix(string(ctx.Request.RequestURI()), "/mp") {
 				// the body is consumed through the multipart API instead of raw reads
 				form, err := ctx.MultipartForm()
@@ -657,6 +665,7 @@ func multipartCase(w *mon.W, c *mon.Case, e, noPre *route.Engine, st *state) {
 	body := "--xx\r\nContent-Disposition: form-data; name=\"a\"\r\n\r\n" + val + "\r\n--xx--\r\n" + epilogue
 	chunked := r.Bool()
 	eng := e
+	raw, reqPath := false, fmt.Sprintf("/mp-%d", id)
 	var wb bytes.Buffer
 	if chunked {
 		fmt.Fprintf(&wb, "POST /mp-%d HTTP/1.1\r\nHost: x\r\nContent-Type: multipart/form-data; boundary=xx\r\nTransfer-Encoding: chunked\r\n\r\n", id)
@@ -673,7 +682,10 @@ func multipartCase(w *mon.W, c *mon.Case, e, noPre *route.Engine, st *state) {
 		wb.WriteString("0\r\n\r\n")
 	} else {
 		eng = noPre
-		fmt.Fprintf(&wb, "POST /mp-%d HTTP/1.1\r\nHost: x\r\nContent-Type: multipart/form-data; boundary=xx\r\nContent-Length: %d\r\n\r\n%s", id, len(body), body)
+		if raw = r.Bool(); raw {
+			reqPath = fmt.Sprintf("/rawmp-%d", id)
+		}
+		fmt.Fprintf(&wb, "POST %s HTTP/1.1\r\nHost: x\r\nContent-Type: multipart/form-data; boundary=xx\r\nContent-Length: %d\r\n\r\n%s", reqPath, len(body), body)
 	}
 	reqWire := wb.Bytes()
 	probe := fmt.Sprintf("GET /probe-%d HTTP/1.1\r\nHost: x\r\n\r\n", id)
@@ -684,7 +696,7 @@ func multipartCase(w *mon.W, c *mon.Case, e, noPre *route.Engine, st *state) {
 	st.cur, st.got, st.gotErr, st.paths, st.done, st.hasDone = plan{stopAfter: -1, readSizes: []int{4096}}, nil, nil, nil, nil, false
 	st.mu.Unlock()
 	c.Detail = func() interface{} {
-		return map[string]interface{}{"family": "multipart", "value_len": len(val), "epilogue": trunc(epilogue, 80), "chunked": chunked, "policy": policy, "frag_sizes": wire.FragSizes(frags), "buf": buf}
+		return map[string]interface{}{"family": "multipart", "read_as_stream": raw, "value_len": len(val), "epilogue": trunc(epilogue, 80), "chunked": chunked, "policy": policy, "frag_sizes": wire.FragSizes(frags), "buf": buf}
 	}
 	sc := sconn.New(frags, sconn.EOF)
 	res := rig.Serve(eng, sc, buf, false, 15*time.Second)
@@ -700,14 +712,20 @@ func multipartCase(w *mon.W, c *mon.Case, e, noPre *route.Engine, st *state) {
 	st.mu.Lock()
 	got, gotErr, paths := string(st.got), st.gotErr, append([]string{}, st.paths...)
 	st.mu.Unlock()
-	if got != val {
+	if raw {
+		if got != body {
+			c.Violate("multipart-value", "engine with DisablePreParseMultipartForm, the handler reads the request body stream: %d bytes (err %v), the multipart body sent has %d bytes", len(got), gotErr, len(body))
+			return
+		}
+		w.Count("multipart_bodies_read_as_stream", 1)
+	} else if got != val {
 		c.Violate("multipart-value", "the handler's MultipartForm() gives the field %d bytes (err %v), the part carries %d bytes", len(got), gotErr, len(val))
 		return
 	}
 	np := 0
 	for _, p := range paths {
 		switch p {
-		case fmt.Sprintf("POST /mp-%d", id):
+		case "POST " + reqPath:
 		case fmt.Sprintf("GET /probe-%d", id):
 			np++
 		default:
